@@ -1053,7 +1053,7 @@ func (w *world) serverSession(res *result) {
 		release(run)
 	}
 	// the server must return once input has ended and steps have finished
-	deadline := time.Now().Add(20 * time.Second)
+	deadline := time.Now().Add(8 * time.Second)
 	quiet := 0
 	for {
 		select {
@@ -1077,6 +1077,9 @@ func (w *world) serverSession(res *result) {
 			}
 			if quiet >= 30 || time.Now().After(deadline) {
 				res.Stuck = true
+				if quiet < 30 {
+					res.StuckDetail = append(res.StuckDetail, "livelock [running] goroutines keep running but the server does not return")
+				}
 				for _, g := range sched.BlockedSDK() {
 					res.StuckDetail = append(res.StuckDetail, fmt.Sprintf("%s [%s] %s", w.s.Role(g.ID), g.State, strings.TrimSpace(g.Top)))
 				}
@@ -1358,7 +1361,7 @@ func runClientScenario(sc scenario, res *result) {
 	// wait for every call to return, or a structural deadlock
 	callersDone := make(chan struct{})
 	go func() { w.callWG.Wait(); close(callersDone) }()
-	deadline := time.Now().Add(20 * time.Second)
+	deadline := time.Now().Add(8 * time.Second)
 	cDone, clDone := false, !wantClose
 	quiet := 0
 	for !(cDone && clDone) {
